@@ -20,8 +20,8 @@ use tokio::sync::Notify;
 
 #[derive(Debug, Default)]
 struct Shared {
-    inbox: VecDeque<Bytes>,  // server → client
-    sent: Vec<Bytes>,        // client → server
+    inbox: VecDeque<Bytes>, // server → client
+    sent: Vec<Bytes>,       // client → server
     closed: bool,
     gate_closed: bool,
 }
@@ -107,7 +107,12 @@ impl Transport for MemTransport {
     type SendHandle = MemSender;
     type RecvHandle = MemReceiver;
     fn split(self) -> (MemSender, MemReceiver) {
-        (MemSender { peer: self.peer.clone() }, MemReceiver { peer: self.peer })
+        (
+            MemSender {
+                peer: self.peer.clone(),
+            },
+            MemReceiver { peer: self.peer },
+        )
     }
 }
 
@@ -167,7 +172,9 @@ pub fn hello(caps: &[&str], session_id: u32) -> String {
         s.push_str(&c.replace('&', "&amp;").replace('<', "&lt;"));
         s.push_str("</capability>");
     }
-    s.push_str(&format!("</capabilities><session-id>{session_id}</session-id></hello>]]>]]>"));
+    s.push_str(&format!(
+        "</capabilities><session-id>{session_id}</session-id></hello>]]>]]>"
+    ));
     s
 }
 
@@ -176,7 +183,9 @@ pub const CAP_BASE11: &str = "urn:ietf:params:netconf:base:1.1";
 pub const CAP_JUNOS: &str = "http://xml.juniper.net/netconf/junos/1.0";
 
 /// Establish a real `Session` over a fresh in-memory transport whose peer has already sent `hello`.
-pub async fn session_with_hello(hello_msg: &str) -> (Result<netconf::Session<MemTransport>, Error>, Peer) {
+pub async fn session_with_hello(
+    hello_msg: &str,
+) -> (Result<netconf::Session<MemTransport>, Error>, Peer) {
     let (t, peer) = new();
     peer.deliver(hello_msg.to_string());
     let s = netconf::Session::verif_new(t).await;
